@@ -119,6 +119,17 @@ def check_slice_like(term, fails, t, src, res, a, b, oracle):
 
 
 # ------------------------------------------------------------------ per-step oracles
+FOOTPRINT = {
+    'C04': ('slice', 'clip', 'index', 'iter'),
+    'C05': ('add', 'iadd', 'join'),
+    'C06': ('apply',),
+    'C07': ('remove', 'clear'),
+    'C11': ('split', 'splitlines', 'partition', 'strip', 'removeprefix', 'removesuffix', 'case', 'assign', 'replace', 'expandtabs'),
+    'C12': ('pad',),
+    'C16': ('fmatch', 'umatch'),
+}
+
+
 def step_oracles(term, props, ops, recs, fails):
     """evaluate the oracles of the requested properties on one recorded history"""
     for t, (op, rec) in enumerate(zip(ops, recs)):
@@ -127,6 +138,11 @@ def step_oracles(term, props, ops, recs, fails):
         res = rec['res']
         name = op[0]
         if post is None:
+            # the result of an operation cannot even be queried: that violates the property the operation belongs to
+            for pid, names in FOOTPRINT.items():
+                if pid in props and name in names and rec['res'][0] == 'ok':
+                    fails.append({'oracle': pid + '.observe', 'step': t,
+                                  'msg': 'after %s the per-character settings / rendering of a pool object can no longer be read: %s' % (name, rec.get('obs_error'))})
             if 'C09' in props:
                 fails.append({'oracle': 'C09.observe', 'step': t, 'msg': 'observing a value raised: %s' % rec.get('obs_error')})
             if 'C08' in props:
